@@ -15,7 +15,10 @@ import AGV.Model.Hostile
     such documents, the pinned one parses them when the stack happens to suffice).
     A `(timeout)` is the listed fragment-bomb finding iff the family is `fragbomb`, executed,
     with `N ≥ bombFloor`.
-  * `doc (lit …)`, `body`, `qs`, `ws` cases: the predicate only.
+  * `doc (lit …)`, `body`, `qs`, `ws` cases: the predicate only; an `(abort …)` is the listed
+    stack-overflow finding iff the text nests brackets `≥ abortFloor` deep (`nestingDepth` for a
+    document, `rawDepth` — brackets inside strings included — for transport payloads, which carry
+    the document inside JSON / percent encoding).
 -/
 
 open AGV AGV.Sexp AGV.Model.Hostile
@@ -79,7 +82,8 @@ def judge (known : List String) (case impl : String) : JudgeOut :=
       let n := n.toNat?.getD 0
       let exec := mode.startsWith "exec"
       let deep := deepKind kind && n ≥ abortFloor
-      let expected := (nestAnswer exec kind n).map ansAtom
+      let expected := (nestAnswerD D exec kind n).map ansAtom
+      let repaired := (nestAnswerD Defects.none exec kind n).map ansAtom
       let modelS := match expected with | some a => a | none => "?"
       if isAbort i then
         if deep && D.noNestingLimit then .known idDeep impl specText else .viol modelS specText
@@ -89,7 +93,7 @@ def judge (known : List String) (case impl : String) : JudgeOut :=
       else if !safe i then .viol modelS specText
       else if deep then .ok
       else if kind = "fragbomb" && exec && n ≥ bombFloor then .ok
-      else if some impl = expected then .ok
+      else if some impl = expected || some impl = repaired then .ok
       else .tie modelS specText
     | .list [.atom "doc", .atom _, .list [.atom "lit", .str t]] =>
       predicateOnly i impl (D.noNestingLimit && nestingDepth t ≥ abortFloor)
@@ -100,9 +104,14 @@ def judge (known : List String) (case impl : String) : JudgeOut :=
         if D.noNestingLimit && n.toNat?.getD 0 ≥ abortFloor then .known idDeep impl "(threshold none)"
         else .viol "(threshold none)" "(threshold none)"
       | _ => .viol "(threshold none)" "(threshold none)"
-    | .list (.atom "body" :: _) => predicateOnly i impl false
-    | .list (.atom "qs" :: _) => predicateOnly i impl false
-    | .list (.atom "ws" :: _) => predicateOnly i impl false
+    | .list [.atom "body", _, .str b, .atom _] =>
+      predicateOnly i impl (D.noNestingLimit && rawDepth b ≥ abortFloor)
+    | .list [.atom "qs", .str b] => predicateOnly i impl (D.noNestingLimit && rawDepth b ≥ abortFloor)
+    | .list [.atom "ws", .atom _, .list frames] =>
+      predicateOnly i impl (D.noNestingLimit && frames.any (fun fr =>
+        match fr with
+        | .str b => rawDepth b ≥ abortFloor
+        | _ => false))
     | _ => .viol "bad-case" "bad-case"
   | _, _ => .viol "unparsable" "unparsable"
 
